@@ -192,6 +192,7 @@ structure Input where
   free : Bool                 -- free-running (unscheduled) experiment: only `seen` is meaningful
   writers : List WSpec
   nkeys : Nat
+  urls : List String          -- the URL string behind each key index: distinct strings = distinct keys
   events : List Ev
   deriving Repr, FromJson, ToJson
 
@@ -326,12 +327,19 @@ def clauses (i : Input) (o : Obs) : Clauses :=
 
 def Holds (i : Input) (o : Obs) : Bool := (clauses i o).holds
 
+def distinct : List String → Bool
+  | [] => true
+  | u :: us => !us.contains u && distinct us
+
 /-- Like `judgeWith`. For a free-running experiment the model is nondeterministic (it cannot
 predict *which* allowed result each Get saw), so there "agree" means: every observed result is
 one the model allows (= the clauses); for traces it is equality with the replayed prediction. -/
 def judge (j : Json) : Except String Json := do
   let i ← (j.getObjVal? "input") >>= fromJson? (α := Input)
   let o ← (j.getObjVal? "obs") >>= fromJson? (α := Obs)
+  -- the model identifies a key with a URL string: the trace must name one distinct URL per key
+  if i.urls.length != i.nkeys || !distinct i.urls then
+    throw "C14: urls must list one distinct URL string per key index"
   let m := run i
   let cl := clauses i o
   let agree := if i.free then cl.holds && o.gets.isEmpty && o.probes.isEmpty else m == o
